@@ -9,6 +9,7 @@ package psatoken
 
 import (
 	"crypto"
+	"errors"
 
 	cose "github.com/veraison/go-cose"
 )
@@ -56,4 +57,48 @@ func verifLemmaSignThenDecode(e *Evidence, signer cose.Signer, pk crypto.PublicK
 		return nil, false, false
 	}
 	return d, true, (e.Verify(pk) == nil) == (d.Verify(pk) == nil)
+}
+
+// C01 (last sentence): after a successful validation every mandatory getter succeeds and every
+// optional getter returns a conformant value or the missing-optional error.
+func verifLemmaValidGettersP2(c *P2Claims) (validated bool, gettersOK bool) {
+	if c.Validate() != nil {
+		return false, false
+	}
+	_, e0 := c.GetProfile()
+	_, e1 := c.GetClientID()
+	_, e2 := c.GetSecurityLifeCycle()
+	_, e3 := c.GetImplID()
+	_, e4 := c.GetNonce()
+	_, e5 := c.GetInstID()
+	_, e6 := c.GetSoftwareComponents()
+	bs, e7 := c.GetBootSeed()
+	_, e8 := c.GetCertificationReference()
+	vsi, e9 := c.GetVSI()
+	mandatory := e0 == nil && e1 == nil && e2 == nil && e3 == nil && e4 == nil && e5 == nil && e6 == nil
+	optional := ((e7 == nil && len(bs) >= 8 && len(bs) <= 32) || errors.Is(e7, ErrMissingOptional)) &&
+		(e8 == nil || errors.Is(e8, ErrMissingOptional)) &&
+		((e9 == nil && vsi != "") || errors.Is(e9, ErrMissingOptional))
+	return true, mandatory && optional
+}
+
+// the same for profile 1 (boot seed mandatory and exactly 32 bytes)
+func verifLemmaValidGettersP1(c *P1Claims) (validated bool, gettersOK bool) {
+	if c.Validate() != nil {
+		return false, false
+	}
+	_, e0 := c.GetProfile()
+	_, e1 := c.GetClientID()
+	_, e2 := c.GetSecurityLifeCycle()
+	_, e3 := c.GetImplID()
+	_, e4 := c.GetNonce()
+	_, e5 := c.GetInstID()
+	_, e6 := c.GetSoftwareComponents()
+	bs, e7 := c.GetBootSeed()
+	_, e8 := c.GetCertificationReference()
+	vsi, e9 := c.GetVSI()
+	mandatory := e0 == nil && e1 == nil && e2 == nil && e3 == nil && e4 == nil && e5 == nil && e6 == nil && e7 == nil && len(bs) == 32
+	optional := (e8 == nil || errors.Is(e8, ErrMissingOptional)) &&
+		((e9 == nil && vsi != "") || errors.Is(e9, ErrMissingOptional))
+	return true, mandatory && optional
 }
